@@ -39,9 +39,75 @@ pub fn scopes(rep: &Report, checks: Checks) {
     run_structures(rep, "depth chains: all object/array patterns of a single nested path", &ch, &few_strategies, &rot, checks, true);
     // E2: selections that also name always-visible / visible claims
     run_structures_named_visible(rep, "S(3,3) x all strategies x all selections, each selection additionally naming iss:true, exp:false", &trees(3, 3), &all_strats, &rot, checks);
+    // E3: honest verification right after an ill-formed one of the same credential
+    if checks.c01 {
+        after_illformed_pass(rep, checks);
+    }
     // F: iat + string sub present
     let ex = trees_with_extras(2, 2);
     run_structures(rep, "S(2,2) with iat and a string sub at the root", &ex, &all_strats, &rot, checks, true);
+}
+
+/// Every honest verification is preceded, on the same thread, by the verification of an ill-formed but
+/// validly signed variant of the same credential (one digest listed twice): whatever that rejection
+/// leaves behind must not change the verdict on the honest presentation.
+fn after_illformed_pass(rep: &Report, checks: Checks) {
+    use crate::drive;
+    use crate::report::par_for;
+    fn dup_first_digest(v: &mut Value) -> bool {
+        match v {
+            Value::Object(m) => {
+                if let Some(Value::Array(a)) = m.get_mut("_sd") {
+                    if let Some(f) = a.first().cloned() {
+                        a.push(f);
+                        return true;
+                    }
+                }
+                for (_, x) in m.iter_mut() {
+                    if dup_first_digest(x) {
+                        return true;
+                    }
+                }
+                false
+            }
+            Value::Array(a) => {
+                if let Some(i) = a.iter().position(|x| x.as_object().map(|o| o.len() == 1 && o.contains_key("...")).unwrap_or(false)) {
+                    let x = a[i].clone();
+                    a.push(x);
+                    return true;
+                }
+                a.iter_mut().any(dup_first_digest)
+            }
+            _ => false,
+        }
+    }
+    let ts = trees(3, 3);
+    let mut items = vec![];
+    for (ti, t) in ts.iter().enumerate() {
+        for s in pipeline::all_strategies(t).into_iter().skip(1) {
+            items.push((ti, s));
+        }
+    }
+    let rot = rotating_cfg(rep.seed + 5);
+    let before = rep.evals();
+    par_for(rep, items.len(), |i, l| {
+        let (ti, s) = &items[i];
+        let cfg = rot(i)[0];
+        let Some(cred) = pipeline::issue_checked(&ts[*ti], s, &cfg, checks, &rep.prop, l) else { return };
+        let mut bad = cred.an.payload.clone();
+        if !dup_first_digest(&mut bad) {
+            return;
+        }
+        let jwt = crate::tokens::sign_payload(&bad, cfg.alg, 0);
+        let polluted = crate::codec::Parts { jwt, disclosures: cred.parts.disclosures.clone(), kb: None }.serialize(cfg.fmt);
+        for sel in crate::gen::selections_coarse(&ts[*ti]) {
+            l.evals += 1;
+            let r = drive::verify(&polluted, crate::keys::issuer_dec(cfg.alg, 0), None, None, cfg.fmt);
+            l.outcome(if r.is_err() { "illformed_variant_rejected" } else { "illformed_variant_not_rejected" });
+            pipeline::run_selection(&cred, &sel, checks, &rep.prop, l);
+        }
+    });
+    rep.scope_done(serde_json::json!({"scope": "S(3,3) x all SD strategies x rotating cfgs: each honest present+verify preceded on the same thread by the verification of a validly signed variant of the same credential with one digest listed twice", "credentials": items.len(), "evaluations": rep.evals() - before}));
 }
 
 pub fn run(rep: &Report) {
